@@ -28,6 +28,7 @@ import JPV.Impl.NonDet
 import JPV.Spec.NonDet
 import JPV.Spec.Typing
 import JPV.Proofs.NonDet
+import JPV.Proofs.NonDetRelEquiv
 import JPV.Proofs.NonDetPermitted
 import JPV.Proofs.NonDetFilters
 import JPV.Proofs.Ndf.General
@@ -88,5 +89,37 @@ theorem C17_permitted_builtin (env : Env) (q : Query) (v : Json) (s : ND.Script)
     (hw : v.WF) (hd : (v.depth : Int) ≤ env.maxDepth) (h1 : 1 ≤ env.maxDepth) :
     ∃ r, ND.find env q v s = .ok r ∧ r ∈ Spec.ND.outcomes builtinReg q v :=
   Proofs.nd_find_permitted_builtin env q v s hf hwt hw hd h1
+
+/-! ### against the DECLARATIVE relation of permitted nodelists
+
+`Spec/NonDetRel.lean` states what RFC 9535 permits as relations (a wildcard / filter selector on an object: any
+permutation of the selected members; a descendant segment: any order of the input node and its descendants in which
+every node precedes its descendants and array elements keep array order, the per-node results concatenated in that
+order; everything else concatenated in input and selector order).  `Proofs/NonDetRelEquiv.lean` proves the
+enumeration `Spec.ND.outcomes` lists exactly those nodelists, so the frontier-based enumeration of visit orders is
+no longer part of what has to be trusted. -/
+
+theorem C17_permitted_rel (env : Env) (reg : Spec.Registry) (q : Query) (v : Json) (s : ND.Script)
+    (hff : Spec.filterFree q = true) (hw : v.WF) (hd : (v.depth : Int) ≤ env.maxDepth) (h1 : 1 ≤ env.maxDepth) :
+    ∃ r, ND.find env q v s = .ok r ∧ Spec.ND.Permitted reg q v r := by
+  obtain ⟨r, h, hm⟩ := C17_permitted env reg q v s hff hw hd h1
+  exact ⟨r, h, Proofs.outcomes_sound reg q v hw r hm⟩
+
+theorem C17_permitted_wt_rel (env : Env) (reg : Spec.Registry) (q : Query) (v : Json) (s : ND.Script)
+    (hc : EnvConforms env reg) (hoi : Proofs.Ndf.OrderInsensitive reg)
+    (hwt : Spec.wtQuery (sigsOf reg) q = true)
+    (hw : v.WF) (hd : (v.depth : Int) ≤ env.maxDepth) (h1 : 1 ≤ env.maxDepth) :
+    ∃ r, ND.find env q v s = .ok r ∧ Spec.ND.Permitted reg q v r ∧ r.Perm (Spec.select reg q v) := by
+  obtain ⟨r, h, hm, hp⟩ := C17_permitted_wt env reg q v s hc hoi hwt hw hd h1
+  exact ⟨r, h, Proofs.outcomes_sound reg q v hw r hm, hp⟩
+
+/-- the enumeration the exploration uses as its oracle is exactly the relation (on well-formed values) -/
+theorem C17_oracle_exact (reg : Spec.Registry) (q : Query) (v : Json) (hw : v.WF) (out : List Node) :
+    out ∈ Spec.ND.outcomes reg q v ↔ Spec.ND.Permitted reg q v out :=
+  ⟨Proofs.outcomes_sound reg q v hw out, Proofs.outcomes_complete reg q v hw out⟩
+
+/-- the deterministic result is one of the permitted ones (the relation is inhabited for every query and value) -/
+theorem C17_deterministic_permitted (reg : Spec.Registry) (q : Query) (v : Json) (hw : v.WF) :
+    Spec.ND.Permitted reg q v (Spec.select reg q v) := Proofs.select_permitted reg q v hw
 
 end JPV.Props
